@@ -61,6 +61,10 @@ def tau_rot(kind, L, channel=None):
 
 
 TRANSLATIONS = [(0.0, 0.0, 0.0), (5.0, -3.0, 2.0), (-40.0, 25.0, 10.0)]
+FAR_TRANSLATION = (300.0, -500.0, 1000.0)
+FARTHER_TRANSLATION = (-2000.0, 3000.0, 1500.0)
+TAU_TRANS_FARTHER = 1.5e-2   # worst observed 1.9e-3: coordinates there are float32-exact to 2.4e-4 A only
+TAU_TRANS_FAR = 5e-3   # worst observed 4e-4 (seeds 0..2)
 
 
 def zs_of(symbols):
@@ -199,6 +203,12 @@ def mol_worker(part, job):
         t = np.array(t)
         pose_t = t
         run_pose("translation", zs, p0 + t, (ext0[0], ext0[1] + t) if ext0 else None, TAU_TRANS, "translation by %s" % (tuple(t),))
+    # ... and a molecule far from the coordinate origin (a molecule cut out of a big simulation box): float32 coordinates there are
+    # exact to 6e-5 A, so the bound is looser, but a difference formed as |p|^2 - 2 p.a + |a|^2 in single precision is off by 1e-1 A
+    for label, tt, tau in (("far-translation", FAR_TRANSLATION, TAU_TRANS_FAR), ("farther-translation", FARTHER_TRANSLATION, TAU_TRANS_FARTHER)):
+        t = np.array(tt)
+        pose_t = t
+        run_pose(label, zs, p0 + t, (ext0[0], ext0[1] + t) if ext0 else None, tau, "translation by %s" % (tuple(float(x) for x in t),))
     # permutations
     pose_t = np.zeros(3)
     for pm in perms(len(zs)):
